@@ -69,6 +69,7 @@ inductive Err
   | index      -- IndexError
   | runtime    -- RuntimeError("Execution of external program … failed")
   | unbound    -- UnboundLocalError (ASE: `success`/`status` never assigned)
+  | attr       -- AttributeError (GromacsRunner.close() without an opened TRR file: `self.fileh` never assigned)
   | fuel       -- the model ran out of fuel: the code would still be looping
 deriving Repr, DecidableEq
 
@@ -320,5 +321,86 @@ def gmxGo (c : Cfg) : List Frame → Nat → List Entry → Bool → Option PSta
       else gmxGo c rest (i + 1) es' r.success (some r.status)
 
 def gmxRun (c : Cfg) (frames : List Frame) : Result := gmxGo c frames 0 [] false none
+
+
+/-! ### GROMACS through `GromacsRunner` (gromacs.py:714-946), tick level
+
+`start()` waits for the .trr and the .edr file (`sleep`, `check_poll`), `get_gromacs_frames` polls once per
+round and yields at most one frame per round while mdrun is alive — and only once `need0` complete unread
+frames are visible for the very first read (the reader wants `TRR_HEAD_SIZE = 1000` bytes before it tries the
+first header; `need0 = ⌈1000 / frame size⌉`) — or all remaining frames once mdrun has ended with code 0.
+`check_poll` raises RuntimeError for ANY non-zero return code.  Leaving the `with` block stops mdrun
+(SIGTERM if no return code has been collected, then wait). -/
+
+/-- one `while not os.path.isfile(fname): sleep(); poll = check_poll(); if poll is not None: break` -/
+def gmxWait (sched : Sched) (code : Int) : Nat → XState → Option (XState × Option Err)
+  | 0, _ => none
+  | fuel + 1, s =>
+    if s.cur.file then some (s, none)
+    else
+      let s := tick sched s
+      let (s, alive) := poll sched s
+      if alive then gmxWait sched code fuel s
+      else if code ≠ 0 then some (s, some .runtime) else some (s, none)
+
+/-- consumer side of one yielded frame: `add_to_path`, `break` on stop (then `__exit__` → `stop()`) -/
+def gmxConsume (c : Cfg) (s : XState) (f : Frame) : Option (XState × Bool) :=
+  match gmxRecord c s.es s.stepNr f with
+  | none => none
+  | some (es', r) =>
+    let s1 := { s with es := es', success := r.success, status := some r.status, rp := s.rp + 1 }
+    if r.stop then some ({ s1 with terminated := true }, true)
+    else some ({ s1 with stepNr := s1.stepNr + 1 }, false)
+
+/-- `read_remaining_trr`: every complete frame still unread, in order, until the consumer stops -/
+def gmxDrain (c : Cfg) : List Frame → XState → XState × Option Err
+  | [], s => (s, none)
+  | f :: rest, s =>
+    match gmxConsume c s f with
+    | none => (s, some .index)
+    | some (s', stop) => if stop then (s', none) else gmxDrain c rest s'
+
+def gmxFrames (c : Cfg) (sched : Sched) (code : Int) (need0 : Nat) (frames : List Frame) :
+    Nat → XState → XState × Option Err
+  | 0, s => (s, some .fuel)
+  | fuel + 1, s =>
+    let (s, alive) := poll sched s
+    if !alive then
+      if code ≠ 0 then (s, some .runtime)
+      else gmxDrain c ((frames.take s.cur.vis).drop s.rp) s
+    else
+      let avail := (min s.cur.vis frames.length) - s.rp
+      let need := if s.rp = 0 then need0 else 1
+      if need ≤ avail ∧ 0 < avail then
+        match frames[s.rp]? with
+        | none => (s, some .index)
+        | some f =>
+          match gmxConsume c s f with
+          | none => (s, some .index)
+          | some (s', stop) => if stop then (s', none) else gmxFrames c sched code need0 frames fuel s'
+      else gmxFrames c sched code need0 frames fuel (tick sched s)
+
+/-- `with GromacsRunner(...) as gro: for i, data in enumerate(gro.get_gromacs_frames()): …` including
+    `__exit__` → `stop()` (also on exceptions raised inside the block; an exception in `start()` leaves no
+    process behind because it is only raised for a collected non-zero return code). -/
+def gmxExt (c : Cfg) (sched : Sched) (code : Int) (need0 : Nat) (frames : List Frame) (fuel : Nat) : Result :=
+  match gmxWait sched code fuel XState.init with
+  | none => XState.init.result (some .fuel)
+  | some (s1, some e) => s1.result (some e)
+  | some (s1, none) =>
+    let p1 := s1.cur.file
+    match gmxWait sched code fuel s1 with
+    | none => s1.result (some .fuel)
+    | some (s2, some e) => s2.result (some e)
+    | some (s2, none) =>
+      let p2 := s2.cur.file
+      -- without both files `stop_read = True`: no frame is read, and `__exit__` → `stop()` → `close()` touches
+      -- `self.fileh`, which `start()` never assigned → AttributeError (after mdrun has been stopped)
+      let (s3, e) := if p1 && p2 then gmxFrames c sched code need0 frames fuel s2 else (s2, some .attr)
+      -- `stop()`: SIGTERM iff no return code was collected (harmless if mdrun has just ended), then wait
+      let s4 := { s3 with killed := !s3.dead && s3.cur.alive, dead := true }
+      match e with
+      | some .fuel => s3.result (some .fuel)
+      | _ => s4.result e
 
 end Infretis.EngineLoops
